@@ -422,6 +422,46 @@ pub enum Op {
         m: u16,
         sel: u16,
     },
+    /// client `m` mutates an event it can open and hands the result to client `v` at once
+    Hostile {
+        m: u16,
+        v: u16,
+        sel: u16,
+        mutation: HostileMut,
+    },
+}
+
+/// one structure-aware mutation of a valid kind-445 event
+#[derive(Clone, Copy, Debug, PartialEq, Eq, Hash, Serialize, Deserialize)]
+pub enum HostileMut {
+    // ---- outer event
+    KindChange,
+    TsZero,
+    TsFarFuture,
+    TsTooOld,
+    NoHTag,
+    TwoHTags,
+    HNotHex,
+    HUpperCase,
+    HShort,
+    HOfUnknownGroup,
+    ContentNotBase64,
+    ContentTruncated,
+    ContentEmpty,
+    // ---- inner MLS bytes, re-encrypted under the right exporter secret
+    InnerEmpty,
+    InnerRandom(u8),
+    InnerBitFlip(u16),
+    InnerTruncate(u8),
+    InnerExtend(u8),
+    /// change the epoch in the clear MLS framing header
+    HeaderEpoch(i8),
+    /// change the content type in the clear MLS framing header (1 application, 2 proposal, 3 commit)
+    HeaderContentType(u8),
+    /// change the MLS group id in the framing header
+    HeaderGroupId,
+    /// keep the bytes, back-date the wrapper so it "wins" MIP-03
+    BackdatedCopy,
 }
 
 #[derive(Clone, Copy, Debug, PartialEq, Eq, Hash, Serialize, Deserialize)]
@@ -1556,6 +1596,19 @@ impl World {
                 };
                 self.replay(m, *sel);
             }
+            Op::Hostile { m, v, sel, mutation } => {
+                let Some(m) = self.active_sel(*m) else {
+                    return Ok(());
+                };
+                let Some(v) = self.member_sel(*v) else {
+                    return Ok(());
+                };
+                if let Some(idx) = self.hostile(m, *sel, *mutation) {
+                    if v != m && self.clients[v].mdk.is_some() {
+                        self.deliver(v, idx, obs)?;
+                    }
+                }
+            }
         }
         Ok(())
     }
@@ -1877,6 +1930,142 @@ impl World {
             }
         }
         Ok(())
+    }
+
+    /// client `m` opens event `sel`, mutates it, publishes the result; returns its relay index
+    pub fn hostile(&mut self, m: usize, sel: u16, mutation: HostileMut) -> Option<usize> {
+        use HostileMut as H;
+        let gid = self.gid.clone();
+        let cands: Vec<usize> = (0..self.relay.len())
+            .filter(|&i| !self.relay[i].withdrawn && self.relay[i].named.rogue.as_deref().map(|r| !r.starts_with("hostile")).unwrap_or(true))
+            .collect();
+        let src = cands[pick(sel, cands.len())?];
+        let cur_epoch = self.clients[m].cur.as_ref().map(|c| c.epoch).unwrap_or(0);
+        let mut opened = None;
+        for e in (0..=cur_epoch).rev() {
+            let sec = on_mdk!(self.clients[m].mdk(), mm => crate::rogue::stored_exporter_secret(mm, &gid, e));
+            if let Some(sec) = sec {
+                if let Some(bytes) = crate::rogue::unwrap_445(&sec, &self.relay[src].ev) {
+                    opened = Some((sec, bytes));
+                    break;
+                }
+            }
+        }
+        let (sec, bytes) = opened?;
+        let orig = self.relay[src].ev.clone();
+        let tag_hex = orig.tags.iter().find(|t| t.kind() == nostr::TagKind::h()).and_then(|t| t.content()).unwrap_or("").to_string();
+        let mut nostr_gid = [0u8; 32];
+        match hex::decode(&tag_hex) {
+            Ok(v) if v.len() == 32 => nostr_gid.copy_from_slice(&v),
+            _ => return None,
+        }
+        let ts = orig.created_at.as_secs();
+        let now = Timestamp::now().as_secs();
+        let keys = crate::rogue::nip44_keys(&sec).ok()?;
+        let enc = |b: &[u8]| nostr::nips::nip44::encrypt(keys.secret_key(), &keys.public_key, b, nostr::nips::nip44::Version::default()).ok();
+        let build = |content: String, kind: Kind, tags: Vec<Tag>, ts: u64| {
+            EventBuilder::new(kind, content).tags(tags).custom_created_at(Timestamp::from_secs(ts)).sign_with_keys(&Keys::generate()).ok()
+        };
+        let h = |v: String| Tag::custom(nostr::TagKind::h(), [v]);
+        let same = orig.content.clone();
+        // offsets in the MLS framing: version(2) wire_format(2) group_id<V> epoch(8) content_type(1)
+        let gl = if bytes.len() > 5 && bytes[4] < 64 { bytes[4] as usize } else { 0 };
+        let epoch_off = 5 + gl;
+        let inner_mut = |f: &dyn Fn(&mut Vec<u8>)| {
+            let mut b = bytes.clone();
+            f(&mut b);
+            b
+        };
+        let (ev, reaches_parser) = match mutation {
+            H::KindChange => (build(same, Kind::TextNote, vec![h(tag_hex.clone())], ts)?, false),
+            H::TsZero => (build(same, Kind::MlsGroupMessage, vec![h(tag_hex.clone())], 0)?, false),
+            H::TsFarFuture => (build(same, Kind::MlsGroupMessage, vec![h(tag_hex.clone())], now + 86_400)?, false),
+            H::TsTooOld => (build(same, Kind::MlsGroupMessage, vec![h(tag_hex.clone())], now.saturating_sub(50 * 86_400))?, false),
+            H::NoHTag => (build(same, Kind::MlsGroupMessage, vec![], ts)?, false),
+            H::TwoHTags => (build(same, Kind::MlsGroupMessage, vec![h(tag_hex.clone()), h(tag_hex.clone())], ts)?, false),
+            H::HNotHex => (build(same, Kind::MlsGroupMessage, vec![h("z".repeat(64))], ts)?, false),
+            H::HUpperCase => (build(same, Kind::MlsGroupMessage, vec![h(tag_hex.to_uppercase())], ts)?, true),
+            H::HShort => (build(same, Kind::MlsGroupMessage, vec![h(tag_hex[..62].to_string())], ts)?, false),
+            H::HOfUnknownGroup => (build(same, Kind::MlsGroupMessage, vec![h("ab".repeat(32))], ts)?, false),
+            H::ContentNotBase64 => (build("*** not base64 ***".into(), Kind::MlsGroupMessage, vec![h(tag_hex.clone())], ts)?, false),
+            H::ContentTruncated => (build(same[..same.len() / 2].to_string(), Kind::MlsGroupMessage, vec![h(tag_hex.clone())], ts)?, false),
+            H::ContentEmpty => (build(String::new(), Kind::MlsGroupMessage, vec![h(tag_hex.clone())], ts)?, false),
+            H::InnerEmpty => (build(enc(&[0u8; 1])?, Kind::MlsGroupMessage, vec![h(tag_hex.clone())], ts)?, true),
+            H::InnerRandom(n) => {
+                let mut hsh = Sha256::new();
+                hsh.update([n]);
+                hsh.update(&bytes);
+                let d = hsh.finalize();
+                let junk: Vec<u8> = d.iter().cycle().take(1 + n as usize * 7).cloned().collect();
+                (build(enc(&junk)?, Kind::MlsGroupMessage, vec![h(tag_hex.clone())], ts)?, true)
+            }
+            H::InnerBitFlip(p) => {
+                let b = inner_mut(&|b| {
+                    let i = (p as usize * b.len()) >> 16;
+                    b[i] ^= 1 << (p % 8);
+                });
+                (build(enc(&b)?, Kind::MlsGroupMessage, vec![h(tag_hex.clone())], ts)?, true)
+            }
+            H::InnerTruncate(n) => {
+                let b = inner_mut(&|b| {
+                    let keep = b.len().saturating_sub(1 + n as usize);
+                    b.truncate(keep.max(1));
+                });
+                (build(enc(&b)?, Kind::MlsGroupMessage, vec![h(tag_hex.clone())], ts)?, true)
+            }
+            H::InnerExtend(n) => {
+                let b = inner_mut(&|b| b.extend(std::iter::repeat(0xAB).take(1 + n as usize)));
+                (build(enc(&b)?, Kind::MlsGroupMessage, vec![h(tag_hex.clone())], ts)?, true)
+            }
+            H::HeaderEpoch(d) => {
+                if gl == 0 || bytes.len() < epoch_off + 9 {
+                    return None;
+                }
+                let b = inner_mut(&|b| {
+                    let mut e = [0u8; 8];
+                    e.copy_from_slice(&b[epoch_off..epoch_off + 8]);
+                    let v = (u64::from_be_bytes(e) as i64 + d as i64).max(0) as u64;
+                    b[epoch_off..epoch_off + 8].copy_from_slice(&v.to_be_bytes());
+                });
+                // back-dated so that it looks like the better MIP-03 candidate
+                (build(enc(&b)?, Kind::MlsGroupMessage, vec![h(tag_hex.clone())], self.t0.saturating_sub(100))?, true)
+            }
+            H::HeaderContentType(t) => {
+                if gl == 0 || bytes.len() < epoch_off + 9 {
+                    return None;
+                }
+                let b = inner_mut(&|b| b[epoch_off + 8] = 1 + t % 3);
+                (build(enc(&b)?, Kind::MlsGroupMessage, vec![h(tag_hex.clone())], self.t0.saturating_sub(100))?, true)
+            }
+            H::HeaderGroupId => {
+                if gl == 0 {
+                    return None;
+                }
+                let b = inner_mut(&|b| b[5] ^= 0xFF);
+                (build(enc(&b)?, Kind::MlsGroupMessage, vec![h(tag_hex.clone())], ts)?, true)
+            }
+            H::BackdatedCopy => (build(enc(&bytes)?, Kind::MlsGroupMessage, vec![h(tag_hex.clone())], self.t0.saturating_sub(200))?, true),
+        };
+        let e = self.relay[src].clone();
+        let idx = self.publish(m, Class::Crafted, e.base.clone(), vec![], ev, None, format!("hostile {mutation:?} of #{src} ({})", e.what), false);
+        self.relay[idx].named = Named {
+            rogue: Some(format!("hostile:{}", format!("{mutation:?}").split('(').next().unwrap_or(""))),
+            ..Named::default()
+        };
+        if matches!(mutation, H::BackdatedCopy | H::HUpperCase) {
+            // the payload itself is genuine
+            self.relay[idx].replay_of = Some(src);
+            self.relay[idx].rumor = e.rumor.clone();
+            self.relay[idx].class = e.class;
+            self.relay[idx].named.added = e.named.added.clone();
+            self.relay[idx].named.removed = e.named.removed.clone();
+            self.relay[idx].named.data_change = e.named.data_change;
+            self.relay[idx].named.leave_of = e.named.leave_of.clone();
+            self.relay[idx].named.proposes_remove = e.named.proposes_remove.clone();
+            self.relay[idx].deps = e.deps.clone();
+        }
+        self.count(&format!("hostile:{}:{}", format!("{mutation:?}").split('(').next().unwrap_or(""), if reaches_parser { "behind-the-outer-layer" } else { "outer" }));
+        Some(idx)
     }
 
     // -----------------------------------------------------------------------------------------
